@@ -26,6 +26,11 @@ EXTRA = {
     "Xx": "template Xx(m) {\n  signal input a;\n  signal output o;\n  var z = m;\n  { var z = 0; }\n  o <== a;\n}\n",
 }
 HEAD = "pragma circom 2.0.0;\n"
+# many unrelated templates that instantiate each other (caches and look-ups are exercised well beyond a handful of definitions)
+NBULK = 90
+BULK = HEAD + "".join(
+    "template Bk%d() {\n  signal input a;\n  signal output o;\n  signal output spare;\n%s  spare <-- a + %d;\n}\n" %
+    (i, ("  component c = Bk%d();\n  c.a <== a;\n  o <== c.o;\n" % (i + 1)) if i + 1 < NBULK else "  o <== a;\n", i) for i in range(NBULK))
 
 
 def render(var, base_names):
@@ -46,6 +51,8 @@ def render(var, base_names):
                       "text": HEAD + ('include "one.circom";\n' if link == "twoIncludesOne" else "") + "".join(DEFS[d] for d in f2)})
     if var["swapFiles"]:
         files.reverse()
+    if var.get("bulk"):
+        files.append({"path": "bulk.circom", "named": True, "text": BULK})
     return files
 
 
@@ -88,7 +95,7 @@ def run(tier):
     variants = [x for x in variants if x["second"] or not x["swapFiles"]]
     if tier == "quick" and len(variants) > 900:
         variants = rnd.sample(variants, 900)
-    base_variant = {"perm": base, "extras": [], "second": [], "swapFiles": False, "extrasFirst": False, "link": "none"}
+    base_variant = {"perm": base, "extras": [], "second": [], "swapFiles": False, "extrasFirst": False, "link": "none", "bulk": False}
     allv = [base_variant] + variants
     docs = []
     for i, var in enumerate(allv):
@@ -120,7 +127,8 @@ def run(tier):
     # A: the real binary, K fresh processes per project
     K = 5 if tier == "quick" else 30
     nproj = 12 if tier == "quick" else 40
-    projs = [render(x, base) for x in [base_variant] + rnd.sample(variants, nproj - 1)]
+    projs = [render(x, base) for x in [base_variant, dict(base_variant, bulk=True)] + rnd.sample(variants, nproj - 2)]
+    projs.append([{"path": "bulk.circom", "named": True, "text": BULK}])
     jobs = [(pi, k) for pi in range(len(projs)) for k in range(K)]
 
     def one(job):
